@@ -15,6 +15,7 @@ NOT_APPLICABLE = {
 # properties whose checker was reviewed, runs clean (or with listed known findings) on the pinned tree and was
 # exercised with breaking / benign edits.  Anything else stays under not_applicable as "pending".
 READY = ['C01', 'C03', 'C04', 'C05', 'C06', 'C07', 'C08', 'C09', 'C10', 'C11', 'C13', 'C14', 'C15', 'C16', 'C17', 'C18', 'C19', 'C20']
+READY.insert(1, 'C02')
 PENDING = 'checker for this property is not built yet in this session (design in DESIGN.md); not claimed until it is'
 
 
